@@ -391,6 +391,8 @@ def r02_5(ctx):
 
 
 def run(ctx):
+    from .sweep import r02_9 as _r02_9
+    _r02_9(ctx)
     r02_1(ctx)
     r02_2(ctx)
     r02_3(ctx)
